@@ -121,7 +121,7 @@ Definition explain_C09 (p : N) : list N :=
      notes' atoms spliced back, is the source; inline: source minus the reference, with the
      inlined note's atoms (in a quote for inline-quote) spliced in, is source'
    5 extract: exactly one block reference per new note in source', titled with the plain text of
-     the new note's first heading, which is at level 1
+     the new note's first heading, which is at level 1; the new note carries no front matter
    6 front matter of the source kept
    7 extract the first sub-section, inline it again: the formatted original is back and the new
      note is deleted
@@ -217,7 +217,8 @@ Definition eval_act (c : actcase) (g : graph) (a : act_obs) : list N * list N :=
           | Some (_, bs) =>
               forallb (fun k =>
                  match after_doc s k with
-                 | Some (_, DHeader _ 1 h :: _) =>
+                 (* a fresh note holds exactly the extracted section: no front matter of its own *)
+                 | Some (None, DHeader _ 1 h :: _) =>
                      match flat_map (block_refs (key_parent key) k) bs with
                      | [l] => String.eqb (norm_text (inlines_plain_text l)) (norm_text (title_text h))
                      | _ => false
